@@ -69,7 +69,7 @@ def handleC09 (args : List Sexp) : String :=
     let rtl ← (← field "rtl").head? >>= (·.bool?)
     let env : Env := ⟨caps, capsize, names, ecma⟩
     let isWord := fun c => word.contains c
-    let validS := mk "valid" [ofBool (valid rtl text rms), ofBool (valid rtl text sms)]
+    let validS := mk "valid" [ofBool (valid rtl text rms), ofBool (valid rtl text sms), ofBool (envOk env)]
     let splitS := mk "split" (resLists (split text sms count rtl))
     match newReplacerData isWord env rep with
     | .error e =>
